@@ -5,6 +5,8 @@ import Amgcl.Model.SolverPreonly
 import Amgcl.Proofs.SolverGMRES
 import Amgcl.Proofs.SolverFGMRES
 import Amgcl.Proofs.SolverLGMRES
+import Amgcl.Proofs.SolverGMRESIndep
+import Amgcl.Proofs.SolverFGMRESIndep
 import Mathlib.Algebra.Order.Field.Rat
 /-!
 # C15 — solver objects are reusable; calls do not leak state  (CG, BiCGStab, Richardson, preonly)
@@ -211,6 +213,35 @@ end nonvacuous
 /-! ## Second package: GMRES, FGMRES, LGMRES, IDR(s), BiCGStab(L) -/
 section second
 variable {K : Type} [Field K] [DecidableEq K] [LT K] [DecidableLT K]
+
+/-! ### the result of a call does not depend on the incoming work arrays; histories equal fresh objects
+
+GMRES: the dense work arrays `H` (`(M+1)×M`), `s, cs, sn` (`M+1`) and the vectors `r`, `v[0..M]`; FGMRES: `H, s, cs, sn`,
+`v[0..M]`, `z[0..M)`.  Every cell is written before it is read: `s` is filled at the start of each restart cycle,
+column `j` of `H` (rows `0..j+1`), `cs[j]`, `sn[j]`, `v[j+1]`, `z[j]` are written in inner iteration `j` and only
+columns / entries `< j` written earlier in the SAME cycle are read; the back substitution reads `H(k,i)`, `k ≤ i < j`;
+`lin_comb` reads `v[i]` / `z[i]`, `i < j`.  Proved for every matrix, every function `P`, both sides, every content
+of the arrays (relational invariant over both loops, `Proofs/SolverGivens.lean`, `Proofs/Solver*GMRESIndep.lean`). -/
+
+theorem gmres_out_indep_ws (prm : GMRES.Params K) (ip : Vec K → Vec K → K) (sqrt : K → K) (eps : K) (A : CRS K)
+    (P : Vec K → Vec K) (ws ws' : GMRES.Work K) (f x0 : Vec K) :
+    (GMRES.run prm ip sqrt eps A P ws f x0).obs = (GMRES.run prm ip sqrt eps A P ws' f x0).obs :=
+  GMRES.run_obs_indep prm ip sqrt eps A P ws ws' f x0
+
+theorem fgmres_out_indep_ws (prm : FGMRES.Params K) (ip : Vec K → Vec K → K) (sqrt : K → K) (eps : K) (A : CRS K)
+    (P : Vec K → Vec K) (ws ws' : FGMRES.Work K) (f x0 : Vec K) :
+    (FGMRES.run prm ip sqrt eps A P ws f x0).obs = (FGMRES.run prm ip sqrt eps A P ws' f x0).obs :=
+  FGMRES.run_obs_indep prm ip sqrt eps A P ws ws' f x0
+
+theorem gmres_history_eq_fresh (prm : GMRES.Params K) (ip : Vec K → Vec K → K) (sqrt : K → K) (eps : K)
+    (w w0 : GMRES.Work K) (cs : List (Call K)) :
+    history (GMRES.call prm ip sqrt eps) w cs = cs.map (fun c => (GMRES.call prm ip sqrt eps w0 c).1) :=
+  history_eq_fresh_of_indep _ (fun a b c => gmres_out_indep_ws prm ip sqrt eps c.A c.P a b c.f c.x0) w0 w cs
+
+theorem fgmres_history_eq_fresh (prm : FGMRES.Params K) (ip : Vec K → Vec K → K) (sqrt : K → K) (eps : K)
+    (w w0 : FGMRES.Work K) (cs : List (Call K)) :
+    history (FGMRES.call prm ip sqrt eps) w cs = cs.map (fun c => (FGMRES.call prm ip sqrt eps w0 c).1) :=
+  history_eq_fresh_of_indep _ (fun a b c => fgmres_out_indep_ws prm ip sqrt eps c.A c.P a b c.f c.x0) w0 w cs
 
 /-! ### zero right-hand side (`‖f‖ < eps(1)`, `ns_search` off): `x = 0`, zero iterations, the work arrays untouched -/
 
